@@ -170,6 +170,11 @@ def run(tier, seed, t0):
         disagreements += vdis
         failures += vfail
 
+    if exe is not None:
+        dst, dfail = deep_chain(exe, 'maxsize', PID)
+        stats['deep_chain'] = dst
+        failures += dfail
+
     def search():
         found = []
         if exe is None:
